@@ -270,6 +270,13 @@ def binop(op, a, b):
             lo, hi = SMIN, SMAX
         return SV(t, lo, hi)
     if op in ('%', '//'):
+        if cb is None and isinstance(b, SV):
+            # a divisor that is a choice between constants (e.g. FRAME_DURATIONS[machine > 1]): distribute over the choice
+            tb = z3.simplify(b.t)
+            if z3.is_app_of(tb, z3.Z3_OP_ITE) and z3.is_bv_value(tb.arg(1)) and z3.is_bv_value(tb.arg(2)):
+                c1, c2 = tb.arg(1).as_long(), tb.arg(2).as_long()
+                if 0 < c1 < (1 << (W - 1)) and 0 < c2 < (1 << (W - 1)):
+                    return ite(SB(tb.arg(0)), binop(op, a, c1), binop(op, a, c2))
         if cb is None or cb <= 0:
             raise Refuse('%s with symbolic or non-positive divisor' % op)
         if cb & (cb - 1) == 0:
